@@ -78,7 +78,14 @@ def run_case(case, ctx):
     clf = bool(sub % 2)
     n = int(rng.randint(40, 260))
     d = int(rng.randint(1, 4))
+    wide = (sub // 11) % 8 == 0
+    if wide:
+        # many discretised features: the cell of a row is described by more than 53 one-hot columns
+        n, d = int(rng.randint(70, 110)), int(rng.randint(12, 15))
     X = rng.randn(n, d)
+    if wide:
+        # the first features almost always fall in the same bin: cells differ in the LAST features only
+        X[:, : d - 3] = (rng.rand(n, d - 3) < 0.04).astype(float) + rng.rand(n, d - 3) * 1e-3
     xdtype = ["float64", "float64", "float64", "int64", "float32"][rng.randint(5)]
     if xdtype == "int64":
         # count-like features, made unique so that a row still identifies its training index
@@ -88,6 +95,8 @@ def run_case(case, ctx):
     elif xdtype == "float32":
         X = X.astype(numpy.float32)
     bk = ["tree", "tree", "kbins", "bins"][rng.randint(4)]
+    if wide:
+        bk = "kbins"
     if bk == "tree":
         depth = int(rng.randint(1, 7))
         binner = _refusable(DecisionTreeClassifier if clf else DecisionTreeRegressor)(max_depth=depth,
@@ -95,7 +104,7 @@ def run_case(case, ctx):
                                                                          random_state=0)
         bdesc = "tree-depth-%d" % depth
     elif bk == "kbins":
-        nb = int(rng.randint(2, 6))
+        nb = int(rng.randint(2, 6)) if not wide else 5
         binner = _refusable(KBinsDiscretizer)(n_bins=nb, strategy=["quantile", "uniform"][rng.randint(2)])
         bdesc = "kbins-%d" % nb
     else:
@@ -344,6 +353,8 @@ def run_case(case, ctx):
         return True
 
     jobs = [1, 2, 4, 8] if tier == "thorough" else [[1, 2], [4], [2, 8], [4]][sub % 4]
+    if wide:
+        jobs = jobs[:1]       # dozens of buckets: the structural clauses above are what this class is for
     for nj in jobs:
         mj = new(nj)
         try:
